@@ -151,7 +151,7 @@ Event(op, extra) ==
 
 \* The operation record of an event goes to the history - or, while a call is inside the wrapped function, to the
 \* record of that enclosing call ("nest").  The event that completes the innermost pending call closes its frame.
-Rec(e) == [x \in (DOMAIN e) \cap {"op", "a", "keys", "keep", "x"} |-> e[x]]
+Rec(e) == [x \in (DOMAIN e) \cap {"op", "a", "keys", "keep", "x", "clear"} |-> e[x]]
 Finish(e) ==
   /\ last' = e
   /\ g' = GhostAfter(Cfg, PState, e)[1]
@@ -337,6 +337,14 @@ DumpK(ks) ==
   /\ UNCHANGED <<mem, cur, swap, stats, queue, refc, ucnt, uord>>
   /\ Quiet("dumpk", [keys |-> ks])
 
+Sync(clear) ==   \* cache.sync: if clear: archive.clear(); dump(); if not clear: load()
+  LET a1 == IF clear THEN Zero ELSE Arch(cur)
+      a2 == Overlay(a1, mem)
+  IN /\ archs' = WithArch(cur, a2)
+     /\ mem' = IF clear \/ cur = 0 THEN mem ELSE Overlay(mem, a2)
+     /\ UNCHANGED <<cur, swap, stats, queue, refc, ucnt, uord>>
+     /\ Quiet("sync", [clear |-> clear])
+
 Clear(keep) ==
   /\ mem' = IF EffAlg = "no" /\ "no_clear_keeps_cache" \in Deviations THEN mem ELSE Zero
   /\ queue' = <<>> /\ refc' = Zero /\ ucnt' = Zero /\ uord' = <<>>
@@ -382,6 +390,7 @@ NextMgmt ==
      \/ "dump" \in OPS /\ Dump
      \/ "dumpk" \in OPS /\ \E ks \in KeySeqs : DumpK(ks)
      \/ "clear" \in OPS /\ \E keep \in BOOLEAN : Clear(keep)
+     \/ "sync" \in OPS /\ NARCH >= 1 /\ \E cl \in BOOLEAN : Sync(cl)
      \/ "arch_off" \in OPS /\ NARCH >= 1 /\ ArchOff
      \/ "arch_on" \in OPS /\ NARCH >= 1 /\ ArchOn
      \/ "set_archive" \in OPS /\ NARCH >= 2 /\ \E x \in 1..2 : SetArchive(x)
